@@ -15,6 +15,10 @@ REPO = os.environ.get("BANDIT_REPO", "/repo")
 # which checks look at which file (anchors of properties.jsonl + the modules each harness drives)
 FILE_CHECKS = {
     "bandit/core/blacklisting.py": ["C01", "C05", "C18"],
+    "bandit/blacklists/calls.py": ["C18", "C01"],
+    "bandit/blacklists/imports.py": ["C18", "C01"],
+    "bandit/blacklists/utils.py": ["C18", "C01"],
+    "bandit/core/constants.py": ["C03", "C12", "C11"],
     "bandit/core/node_visitor.py": ["C01", "C04", "C10", "C02"],
     "bandit/core/tester.py": ["C02", "C05", "C12", "C06"],
     "bandit/core/manager.py": ["C02", "C03", "C04", "C07", "C11", "C12"],
@@ -72,6 +76,9 @@ CMP_SWAP = {ast.Eq: ast.NotEq, ast.NotEq: ast.Eq, ast.Lt: ast.LtE, ast.LtE: ast.
             ast.In: ast.NotIn, ast.NotIn: ast.In, ast.Is: ast.IsNot, ast.IsNot: ast.Is}
 
 
+RANK_SWAP = {"HIGH": "MEDIUM", "MEDIUM": "LOW", "LOW": "MEDIUM"}
+
+
 def is_noise(stmt):
     """statements no property can observe: logging, warnings, docstrings, help text"""
     src = ast.unparse(stmt)
@@ -87,6 +94,23 @@ def candidates(tree):
             skip.update(id(n) for n in ast.walk(fn))
         if isinstance(fn, ast.stmt) and is_noise(fn):
             skip.update(id(n) for n in ast.walk(fn))
+    # string constants that take part in a comparison / membership test / startswith-endswith call
+    cmp_strings = set()
+    for c in ast.walk(tree):
+        if isinstance(c, ast.Compare):
+            for e in [c.left] + list(c.comparators):
+                for x in ast.walk(e):
+                    if isinstance(x, ast.Constant) and isinstance(x.value, str):
+                        cmp_strings.add(id(x))
+        if isinstance(c, (ast.List, ast.Tuple, ast.Set, ast.Dict)):
+            for x in ast.iter_child_nodes(c):
+                if isinstance(x, ast.Constant) and isinstance(x.value, str):
+                    cmp_strings.add(id(x))
+        if isinstance(c, ast.Call) and isinstance(c.func, ast.Attribute) and c.func.attr in ("startswith", "endswith", "get", "check_call_arg_value", "get_call_arg_value", "is_module_imported_like", "is_module_imported_exact"):
+            for a in c.args:
+                for x in ast.walk(a):
+                    if isinstance(x, ast.Constant) and isinstance(x.value, str):
+                        cmp_strings.add(id(x))
     for i, n in enumerate(ast.walk(tree)):
         if id(n) in skip:
             continue
@@ -106,6 +130,13 @@ def candidates(tree):
             yield i, "retnone", ast.unparse(n)[:80]
         elif isinstance(n, (ast.Break, ast.Continue)):
             yield i, "brkcont", type(n).__name__
+        # data mutations: the rank a check reports, an element of a literal table, a string a decision compares with
+        elif isinstance(n, ast.Attribute) and n.attr in RANK_SWAP and isinstance(n.value, ast.Name) and n.value.id in ("bandit", "b_const", "constants"):
+            yield i, "rankswap", ast.unparse(n)
+        elif isinstance(n, (ast.List, ast.Tuple, ast.Set)) and len(n.elts) >= 2 and all(isinstance(e, ast.Constant) for e in n.elts) and isinstance(getattr(n, "ctx", ast.Load()), ast.Load):
+            yield i, "dropelem", ast.unparse(n)[:80]
+        elif isinstance(n, ast.Constant) and isinstance(n.value, str) and 1 <= len(n.value) <= 40 and "\n" not in n.value and id(n) in cmp_strings:
+            yield i, "strmut", repr(n.value)
 
 
 def mutate_tree(tree, index, op):
@@ -147,6 +178,12 @@ def mutate_tree(tree, index, op):
         target.value = ast.Constant(value=None)
     elif op == "brkcont":
         replace(ast.Continue() if isinstance(target, ast.Break) else ast.Break())
+    elif op == "rankswap":
+        target.attr = RANK_SWAP[target.attr]
+    elif op == "dropelem":
+        target.elts = target.elts[:-1] if index % 2 else target.elts[1:]
+    elif op == "strmut":
+        target.value = target.value + "x"
     ast.fix_missing_locations(tree)
     return tree
 
@@ -163,6 +200,9 @@ def main():
                 continue
             tree = ast.parse(open(path).read())
             cands = list(candidates(tree))
+            if "--ops" in sys.argv:
+                want = set(sys.argv[sys.argv.index("--ops") + 1].split(","))
+                cands = [c for c in cands if c[1] in want]
             rng.shuffle(cands)
             for idx, op, desc in cands[:per]:
                 print(json.dumps({"file": rel, "index": idx, "op": op, "desc": desc, "checks": checks}))
